@@ -180,7 +180,7 @@ PURE = {
     "math.floor": math.floor, "math.ceil": math.ceil, "math.isinf": math.isinf, "math.isnan": math.isnan, "math.isfinite": math.isfinite,
     "math.trunc": math.trunc, "math.copysign": math.copysign, "math.sqrt": math.sqrt, "math.fabs": math.fabs, "math.isclose": math.isclose,
     "math.log": math.log, "math.exp": math.exp, "isclass": lambda x: isinstance(x, type), "inspect.isclass": lambda x: isinstance(x, type),
-    "issubclass": issubclass, "dir": dir, "map": map, "filter": filter, "reversed": reversed, "iter": iter, "next": next, "dict": dict, "frozenset": frozenset, "getattr": getattr, "hasattr": hasattr, "id": id,
+    "issubclass": issubclass, "dir": dir, "map": map, "filter": filter, "reversed": reversed, "iter": iter, "next": next, "dict": dict, "frozenset": frozenset, "getattr": getattr, "hasattr": hasattr, "id": id, "hex": hex,
 }
 import builtins as _builtins  # noqa: E402
 
@@ -530,8 +530,11 @@ class Interp:
         for cdef, cmod in reversed(mro):
             for st in cdef.body:
                 if isinstance(st, (ast.FunctionDef,)):
-                    bound = (lambda fn, fmod: (lambda *a, **k: self.run_function(fn, [obj, *a], k, fmod)))(st, cmod)
                     decos = [norm(d) for d in st.decorator_list]
+                    if "staticmethod" in decos:
+                        bound = (lambda fn, fmod: (lambda *a, **k: self.run_function(fn, list(a), k, fmod)))(st, cmod)
+                    else:
+                        bound = (lambda fn, fmod: (lambda *a, **k: self.run_function(fn, [obj, *a], k, fmod)))(st, cmod)
                     if "property" in decos or any(d.endswith("cached_property") for d in decos):
                         obj.props[st.name] = bound
                         obj.methods.pop(st.name, None)
